@@ -18,7 +18,7 @@ LEVEL = 'proof'
 
 
 def make_case(rng):
-    prog = progs.gen_program(rng, twins=False, opts={'ticks': True, 'windows': rng.chance(1, 2), 'closures': True})
+    prog = progs.gen_program(rng, twins=False, opts={'ticks': True, 'windows': rng.chance(1, 2), 'closures': True, 'renable': rng.fork('renable').chance(1, 2)})
     names = [n for (_f, n, _k) in prog['funcs']]
     k = rng.below(len(names)) + 1
     reg = sorted(set(rng.sample(names, k)), key=names.index)
